@@ -1010,6 +1010,9 @@ func c18StopScenario(sc c18Scenario, rng *Rng, rep *c18Report) {
 		points = (points + 4) / 5 * 2
 	}
 	deadline := sc.deadline()
+	if sc.Kind == "llmnr" {
+		c18CloseBeforeServe(rep)
+	}
 	for p := 0; p < points && time.Now().Before(deadline); p++ {
 		base := runtime.NumGoroutine()
 		delay := time.Duration(rng.Intn(15000)) * time.Microsecond
@@ -1216,6 +1219,61 @@ func c18StopScenario(sc c18Scenario, rng *Rng, rep *c18Report) {
 			rep.violate("%s: %d goroutines before start, %d still alive 30s after Stop returned and all clients closed: %s", sc.Kind, base, n, frames)
 			return
 		}
+	}
+}
+
+// The earliest stop point: Close arrives before the server has a socket and before Serve is entered (a shutdown racing
+// the start-up goroutine).  The stop signal must not be lost: Serve, once entered, returns promptly and answers nothing.
+func c18CloseBeforeServe(rep *c18Report) {
+	base := runtime.NumGoroutine()
+	s, err := llmnr.NewServer("udp4", []llmnr.Handler{llmnr.HandlerFunc(c18LLMNRHandler), llmnr.HandlerFunc(c18LLMNRCatchAll)})
+	if err != nil {
+		rep.Notes = append(rep.Notes, "cannot create LLMNR server: "+err.Error())
+		return
+	}
+	s.Close()
+	conn, err := net.ListenUDP("udp4", &net.UDPAddr{IP: net.IPv4(127, 0, 0, 1)})
+	if err != nil {
+		rep.Notes = append(rep.Notes, "cannot listen: "+err.Error())
+		return
+	}
+	defer conn.Close()
+	s.Conn = conn
+	done := make(chan error, 1)
+	go func() { done <- s.Serve() }()
+	answered := false
+	if c, err := net.DialUDP("udp4", nil, conn.LocalAddr().(*net.UDPAddr)); err == nil {
+		msg := llmnr.NewMessage()
+		msg.SetQuery()
+		msg.AddQuestion(c18LLMNRName(0, 1), llmnr.TypeA, llmnr.ClassIN)
+		enc, _ := msg.Encode()
+		c.Write(enc)
+		c.SetReadDeadline(time.Now().Add(300 * time.Millisecond))
+		buf := make([]byte, 1500)
+		if n, err := c.Read(buf); err == nil && n > 0 {
+			answered = true
+		}
+		c.Close()
+	}
+	rep.Stats["stop_points"]++
+	select {
+	case <-done:
+	case <-time.After(5 * time.Second):
+		rep.violate("llmnr: Close() called before Serve was entered: Serve did not return within 5s (the stop signal was lost)")
+		s.Close()
+		conn.Close()
+		select {
+		case <-done:
+		case <-time.After(5 * time.Second):
+			rep.violate("llmnr: after a Close() that came before Serve, a second Close() does not stop the server either")
+		}
+		return
+	}
+	if answered {
+		rep.violate("llmnr: a server closed before Serve was entered answered a query")
+	}
+	if n, frames := goroutinesSettle(base, 10*time.Second); n > base {
+		rep.violate("llmnr: close-before-serve left %d goroutines (was %d): %s", n, base, frames)
 	}
 }
 
